@@ -33,7 +33,7 @@ CfgOf(e) == [recs |-> [i \in 1..Len(e.recs) |->
 
 TReset == /\ Is("reset") /\ (~started \/ phase = "done")
           /\ Ev.nw >= 1 /\ Ev.nparts >= 1
-          /\ CReset(CfgOf(Ev))
+          /\ (\E c \in {CfgOf(Ev)} : CReset(c))     \* (bound once: TLC re-evaluates plain operator arguments in actions)
           /\ started' = TRUE /\ mode' = Ev.mode /\ flushed' = {} /\ Consume
 
 TCtrInit == Is("ctr.init") /\ started /\ A(1) = ccfg.nparts /\ A(2) = N /\ A(4) = ccfg.nw /\ Skip
